@@ -22,7 +22,7 @@ CONSTANTS KU,       \* sequence of 3 keys: the universe
           Reads     \* TRUE: lookups and len are script tokens too (they never change the state;
                     \* FALSE: the harness appends a probe of every key, len and a full loop instead)
 
-KU_int == << [ty |-> "int", x |-> "1"], [ty |-> "int", x |-> "2"], [ty |-> "int", x |-> "3"] >>
+KU_int == << [ty |-> "int", x |-> "4"], [ty |-> "int", x |-> "5"], [ty |-> "int", x |-> "6"] >>   \* three plain keys (also replayed as string, [2]int and struct keys)
 KU_f64 == << [ty |-> "float64", x |-> "+0"], [ty |-> "float64", x |-> "-0"], [ty |-> "float64", x |-> "NaN"] >>
 KU_any == << [ty |-> "int", x |-> "1"], [ty |-> "int64", x |-> "1"], [ty |-> "[]int", x |-> "0"] >>
 KU_anyf == << [ty |-> "float64", x |-> "-0"], [ty |-> "wrap/float64", x |-> "+0"], [ty |-> "wrap/[]int", x |-> "0"] >>
